@@ -591,10 +591,13 @@ func (self *Core) runInstruction(instruction compiler.Instruction) *value.VmInte
 			return i
 		}
 
+		// The exception's position is the `throw` call itself, not the instruction after it
+		throwSpan := self.parent.SourceMap(*self.callFrame())
+
 		self.callFrame().InstructionPointer++
 
 		return value.NewVMThrowInterrupt(
-			self.parent.SourceMap(*self.callFrame()),
+			throwSpan,
 			display,
 		)
 	case compiler.Opcode_SetTryLabel:
